@@ -569,6 +569,8 @@ class HistGen:
             to = rng.choice([p.addr for p in w.pairs] + [w.router, w.router, w.factory] + [t[1] for t in w.tokens] + [w.pairs[0].lp])
         elif r < 0.52:
             to = rng.choice(["Recv", "re", "", "r" * 64, "Trader1"])   # not an address: the route must fail as a whole
+        elif r < 0.55:
+            to = rng.choice([" recv", "recv "])     # blanks are part of the name: another account than `recv` (if accepted at all)
         hops = spec["hops"]
         final = hops[-1][1]
         revisit = final in [a for _, a in hops[:-1]] or final == hops[0][0]
